@@ -181,12 +181,19 @@ SPECS["C01"] = (
  "   forms and on a whole block; the cryptex CSRC shuffle is undone by its inverse) and evaluated examples through the full model;\n"
  "   their end-to-end statement is the part still named PARTIAL.  The round trip premises are those a peer session with the same\n"
  "   policy in the same index state satisfies: same keys / services / MKI configuration, same index estimate, packet not yet seen.",
- "From Srtp Require Import Util Constants KeyLimit Rdb Rdbx Icm World Stream Rtp Session WfProofs RtcpSpec RtpSpec XtnProofs CryptexProofs RtpSpecProofs RtpXtnApply RtpRoundTrip RtpExamples.",
+ "From Srtp Require Import Util Constants KeyLimit Rdb Rdbx Icm World Stream Rtp Session WfProofs RtcpSpec RtpSpec XtnProofs CryptexProofs RtpSpecProofs RtpXtnApply RtpRoundTrip CipherChunk RtpRoundTripXtn RtpRoundTripCryptex RtpRoundTripCryptexEx RtpExamples.",
  [("the stream cipher is an involution: applying it again at the same state gives the input back", "RtcpSpec.v", "cipher_encrypt_involutive"),
   ("what a successful srtp_protect emits, byte for byte: rtp_wire for the selected key and the estimated index", "RtpSpecProofs.v", "protect_emits_rtp_wire"),
   ("the receiver selects the sender's key: first key without MKI, the named key under distinct MKI values", "RtpRoundTrip.v", "key_selected_nodup"),
   ("round trip of the monadic receiver on a wire packet: status ok, length, bytes, no out-of-bounds access, input untouched (any alias mode, any destination prefill)", "RtpRoundTrip.v", "srtp_round_trip"),
   ("end to end: whatever srtp_protect produced is accepted by the peer and decodes to the byte-identical packet", "RtpRoundTrip.v", "srtp_protect_unprotect"),
+  ("RFC 6904 class: the same receiver theorem with a header-extension cipher (k_xtn_c arbitrary), any alias mode", "RtpRoundTripXtn.v", "srtp_round_trip_xtn"),
+  ("cryptex class (RFC 9335, CSRCs included; in place = shuffle + one run, out of place = CSRC run + rest): any s_cryptex setting without header-extension cipher; profile_octets holds for every list of octets", "RtpRoundTripCryptex.v", "srtp_round_trip_noxtn"),
+  ("", "RtpRoundTripCryptex.v", "srtp_round_trip_cryptex"),
+  ("all classes of the property's domain in one statement (cryptex together with RFC 6904 is outside it)", "RtpRoundTripCryptex.v", "srtp_round_trip_classes"),
+  ("the octet side condition is met by real packets", "RtpRoundTripCryptexEx.v", "profile_octets_of_octets"),
+  ("chunking independence of the cipher (what makes the out-of-place cryptex path equal to the in-place one)", "CipherChunk.v", "cipher_chunk"),
+  ("outside the domain, evaluated: cryptex together with RFC 6904 does not round-trip (receiver side of known finding F16)", "RtpRoundTripCryptexEx.v", "srtp_round_trip_cryptex_with_6904_refuted"),
   ("RFC 6904 element walk, one-byte form: running it again with the same keystream gives the elements back", "XtnProofs.v", "xtn_one_involutive"),
   ("... two-byte form", "XtnProofs.v", "xtn_two_involutive"),
   ("... on a whole packet block: only the extension elements change, and the transformation is an involution", "RtpXtnApply.v", "xtn_apply_outside"),
@@ -208,14 +215,20 @@ SPECS["C12"] = (
  "   blocks with an alias flag (World.v); each theorem says the model REFINES a pure function of (session, packet bytes, capacity),\n"
  "   so status, length, output octets and final session cannot depend on the alias mode or on what the destination held, and the\n"
  "   out-of-place call leaves its input alone.  SRTCP: both functions, every input (valid, replayed, tampered, malformed).\n"
- "   SRTP: srtp_protect for streams without cryptex / header-extension cipher (every input), srtp_unprotect on every wire packet\n"
- "   of such a stream (C01_srtp_round_trip: the result is the packet in every mode); the remaining SRTP classes are covered by the\n"
- "   evaluated examples and the four-modes correspondence family (PARTIAL).  Known finding F16: cryptex TOGETHER WITH RFC 6904\n"
+ "   SRTP: srtp_unprotect for every input and every well-formed stream (no class restriction); srtp_protect for streams without\n"
+ "   cryptex / header-extension cipher (every input); srtp_protect on the RFC 6904 and cryptex classes is covered by the evaluated\n"
+ "   examples and the four-modes correspondence family (PARTIAL until RtpRefineXtn / RtpRefineCryptex land).  Known finding F16: cryptex TOGETHER WITH RFC 6904\n"
  "   (outside C01's domain) is alias dependent; the refutation below is evaluated on the model and replayed on the library.",
- "From Srtp Require Import Util Constants KeyLimit Rdb Rdbx Icm World Stream Rtp Rtcp Session WfProofs RtcpSpec RtcpSpecProofs RtpSpec RtpSpecProofs RtpRoundTrip RtpExamples.",
+ "From Srtp Require Import Util Constants KeyLimit Rdb Rdbx Icm World Stream Rtp Rtcp Session WfProofs RtcpSpec RtcpSpecProofs RtpSpec RtpSpecProofs RtpRoundTrip RtpRoundTripCryptex RtpUnprotSpec RtpUnprotProofs RtpExamples.",
  [("srtp_protect computes protect_fun of (session, MKI index, capacity, packet): whatever the alias mode and the prefill", "RtpSpecProofs.v", "protect_refines"),
   ("... hence in place vs out of place: same status, length, output octets, final session; source untouched", "RtpSpecProofs.v", "protect_alias_independent"),
-  ("srtp_unprotect on a wire packet: the packet comes back in every mode (w is any world whose input block holds the wire image)", "RtpRoundTrip.v", "srtp_round_trip"),
+  ("srtp_unprotect computes unprotect_fun of (session, capacity, input octets) for EVERY input (valid, replayed, tampered, malformed) and EVERY well-formed stream (plain, RFC 6904, cryptex, both): whatever the alias mode and the prefill", "RtpUnprotProofs.v", "unprotect_refines"),
+  ("... hence two arbitrary calls with the same session, capacity and input octets agree on status, length, output octets and final session, and neither touches its source", "RtpUnprotProofs.v", "unprotect_buffers_independent"),
+  ("in place vs out of place", "RtpUnprotProofs.v", "unprotect_alias_independent"),
+  ("out of place, two different destination prefills", "RtpUnprotProofs.v", "unprotect_prefill_independent"),
+  ("cryptex together with RFC 6904 on the RECEIVE side is refused identically in every mode (the alias dependence of F16 is on the protect side only)", "RtpUnprotProofs.v", "unprotect_cryptex_xtn_rejected"),
+  ("", "RtpUnprotProofs.v", "unprotect_alias_cryptex_xtn_not_refuted"),
+  ("srtp_unprotect on a wire packet: the packet comes back in every mode (w is any world whose input block holds the wire image)", "RtpRoundTripCryptex.v", "srtp_round_trip_classes"),
   ("srtp_protect_rtcp refines a pure function", "RtcpSpecProofs.v", "protect_rtcp_refines"),
   ("srtp_unprotect_rtcp refines a pure function (all inputs: the function also computes the error statuses)", "RtcpSpecProofs.v", "unprotect_rtcp_refines"),
   ("srtp_protect_rtcp: alias independence", "RtcpSpecProofs.v", "protect_rtcp_alias_independent"),
